@@ -44,9 +44,12 @@ def run_divguard(ctx) -> RuleResult:
                     for test, pol in step.fact_items():
                         if pol is not False or not isinstance(test, ast.Call) or is_S(test):
                             continue
-                        if ctx.dotted(module, test.func) != "numpy.any" or not test.args:
+                        if ctx.dotted(module, test.func) == "numpy.any" and test.args:
+                            arg = test.args[0]
+                        elif isinstance(test.func, ast.Attribute) and test.func.attr == "any" and not test.args:
+                            arg = test.func.value
+                        else:
                             continue
-                        arg = test.args[0]
                         if isinstance(arg, ast.Compare) and len(arg.ops) == 1 and _txt(arg.left) == btxt \
                                 and isinstance(arg.comparators[0], ast.Constant) and arg.comparators[0].value == 0:
                             if isinstance(arg.ops[0], (ast.Lt, ast.LtE)):
@@ -247,7 +250,25 @@ def run_clean(ctx) -> RuleResult:
             if inner is not None and isinstance(inner, ast.Name) and inner.id == exp_name:
                 keeps_constant = True
                 continue
-        problems.append(U(part))
+        # known-wrong forms are reported; anything else is outside the recognised idioms
+        text = U(part)
+        wrong = False
+        if isinstance(part, ast.Call) and not is_S(part):
+            name = ctx.dotted(module, part.func) or (part.func.attr if isinstance(part.func, ast.Attribute) else "")
+            if name.split(".")[-1] in ("all", "sum", "prod", "max", "min", "mean", "allclose", "isclose"):
+                wrong = True
+        if isinstance(part, ast.Subscript) or (isinstance(part, ast.Name) and part.id == coef_name):
+            wrong = True  # truthiness of an array element / the whole array
+        inner = _any_call(ctx, module, part)
+        if inner is not None and not isinstance(inner, ast.Name):
+            # numpy.any(<expression of the coefficient>): accept comparisons with zero
+            if isinstance(inner, ast.Compare) and isinstance(inner.left, ast.Name) and inner.left.id == coef_name \
+                    and isinstance(inner.ops[0], ast.NotEq):
+                keeps_nonzero = True
+                continue
+        if not wrong:
+            raise AnalysisError(f"remove_redundant_coefficients: unrecognised keep-predicate part '{text}'")
+        problems.append(text)
     where = module.loc(cond)
     ok = keeps_nonzero and not problems
     result.ob("a term is kept whenever one of its coefficients is non-zero (numpy.any)", ok, where, U(cond))
@@ -343,8 +364,8 @@ def run_power(ctx) -> RuleResult:
         found = True
         where = module.loc(step.node)
         text = _txt(it)
-        ok = len(it.args) == 1 and _txt(it.args[0]).endswith(".item()") and ("π" + params[1]) in _txt(it.args[0]) \
-            and not isinstance(it.args[0], ast.BinOp)
+        ok = len(it.args) == 1 and ("π" + params[1]) in _txt(it.args[0]) and not any(
+            isinstance(n2, ast.BinOp) for n2 in walk_shared(it.args[0]))
         result.ob("the base is multiplied exactly <exponent> times", ok, where, text[:100])
         if not ok:
             result.add(Finding("R-POWER", module, "power", step.node.iter,
@@ -393,7 +414,8 @@ def run_carrier(ctx) -> RuleResult:
         n += 1
         dtype = kwarg(call, "dtype") or (call.args[1] if len(call.args) > 1 else None)
         text = U(dtype) if dtype is not None else "float (default)"
-        ok = dtype is not None and text in ("int", "numpy.int64", "'i8'", '"i8"', "numpy.int_", "numpy.intp", "'int64'", '"int64"')
+        ok = dtype is not None and text in ("int", "numpy.int64", "'i8'", '"i8"', "numpy.int_", "numpy.intp", "'int64'",
+                                            '"int64"', "'int'", '"int"', "numpy.dtype(int)", "numpy.longlong")
         result.ob(f"call: {U(call)[:60]} carries the integer dtype", ok, module.loc(call), text)
         if not ok:
             result.add(Finding(
@@ -545,7 +567,7 @@ def run_outer(ctx) -> RuleResult:
         n += 1
         for idx, (arg, pname, col) in enumerate(((value.args[0], params[0], True), (value.args[1], params[1], False))):
             text = _txt(arg)
-            flat = ".ravel()" in text or ".flatten()" in text or ".reshape(-1" in text
+            flat = "ravel(" in text or "flatten(" in text or "reshape(-1" in text or ".flat" in text
             owner = ("π" + pname) in text and ("π" + params[1 - idx]) not in text.split(".ravel()")[-1]
             result.ob(f"outer: operand {idx} is flattened", flat, module.loc(last.orig), text[-60:])
             if not flat:
